@@ -59,6 +59,7 @@ func c07Config(r *fw.Rec, v int, l qrref.Level, mask int, reps int) {
 			continue
 		}
 		text, segs, charset := qrPayload(rng, mode, n)
+		declared := false
 		if mode == qrref.Byte && rng.Intn(3) == 0 && n >= 6 {
 			// byte mode in a declared character set other than UTF-8: the count field counts the
 			// bytes of THAT encoding, which differ in number from the text's UTF-8 bytes
@@ -75,14 +76,14 @@ func c07Config(r *fw.Rec, v int, l qrref.Level, mask int, reps int) {
 					rs, bs = cand, b
 				}
 				if bs != nil && (len(bs) != len(string(rs)) || e.Kind == 4) {
-					text, charset = string(rs), e.Name
+					text, charset, declared = string(rs), e.Name, true
 					segs = []qrref.Segment{{Mode: qrref.ModeECI, ECI: e.Values[0]}, {Mode: qrref.Byte, Data: bs, ECI: -1}}
 					r.Tally("byte_mode_in_declared_non_utf8_charset")
 				}
 			}
 		}
 		gs1 := false
-		if charset != "" && charset != "Shift_JIS" && mode == qrref.Byte {
+		if declared {
 			// declared character set: no GS1 variant on top
 		} else if rep%3 == 2 || (reps == 1 && (v+mask)%5 == 0) {
 			// GS1 symbols: FNC1 in first position after any ECI header (ISO 18004: ECI designator first).
